@@ -50,6 +50,8 @@ def run(ctx):
     lib_kind2.err_var(ctx, P, lambda k, f: True, tus=["module"])
     lib_kind2.memset_count(ctx, P, lambda k, f: True, tus=["module"])
     lib_kind2.keep_rows_atomic(ctx, P)
+    lib_kind2.id_array_first_use(ctx, P)
+    lib_kind2.alloc_size_bounded(ctx, P)
     lib_kind3.error_codes(ctx, P)
     lib_kind.dict_atomic(ctx, P)
     lib_stats.early_exits(ctx, P)
@@ -63,7 +65,7 @@ def run(ctx):
     lib_mem.c_lints(ctx, ctx.program(), scopes.lib_scope("C09"))
     # Python: a public method that indexes a numpy array with the caller's id must test its lower bound (numpy wraps negatives)
     py = ctx.python()
-    lib_kind3.py_slips(ctx, py, mods=("trees", "tables", "genotypes"), only=scopes.py_scope("C09"))
+    lib_kind3.py_slips(ctx, py, mods=("trees", "tables", "genotypes", "vcf"), only=scopes.py_scope("C09"))
     from . import lib_py
     lib_py.facade_guard(ctx, py, "tables", "BaseTable.__getitem__", "index", "ll_table.get_row", upper="len(self)")
     lib_schema.update_row(ctx, P, load_schemas(P))
